@@ -1,15 +1,19 @@
 #!/bin/sh
 # development helper: build the worker once into bin/vworker-dev
+# DEV_REPO selects the tree to build against (default /repo; a private worktree while /repo is busy)
+DEV_REPO=${DEV_REPO:-/repo}
+export DEV_REPO
 cd /verif && python3 - <<'PY'
 import json,os
+R=os.environ['DEV_REPO']
 repl={}
 for root,_,files in os.walk('/verif/overlay'):
     for f in files:
         if f.endswith('.go'):
             p=os.path.join(root,f); rel=os.path.relpath(p,'/verif/overlay')
-            dst='/repo/cmd/'+rel if rel.startswith('vworker/') else '/repo/'+rel
+            dst=R+'/cmd/'+rel if rel.startswith('vworker/') else R+'/'+rel
             repl[dst]=p
 os.makedirs('/verif/.work',exist_ok=True)
 json.dump({"Replace":repl},open('/verif/.work/dev-overlay.json','w'))
 PY
-cd /repo && GOFLAGS=-mod=readonly GOPROXY=off GOSUMDB=off GOTOOLCHAIN=local GOCACHE=/verif/.cache/go-build CGO_ENABLED=0 go build -tags verif -overlay /verif/.work/dev-overlay.json -o /verif/bin/vworker-dev ./cmd/vworker
+cd $DEV_REPO && GOFLAGS=-mod=readonly GOPROXY=off GOSUMDB=off GOTOOLCHAIN=local GOCACHE=/verif/.cache/go-build CGO_ENABLED=0 go build -tags verif -overlay /verif/.work/dev-overlay.json -o /verif/bin/vworker-dev ./cmd/vworker
